@@ -1,7 +1,7 @@
 """C18 — a flattened manifest faithfully summarises the history."""
 import random, json
 from . import _scn
-from .. import gen, oracles as O, rt
+from .. import gen, oracles as O, rt, largefiles
 
 
 def build(seed):
@@ -39,7 +39,10 @@ def build(seed):
         p = rnd.choice(files)
         ops.append({"op": "write", "path": p, "data": "ALTERED AFTER FLATTEN"})
         ops.append({"op": "verifypl", "at": ""})
-    return {"seed": seed, "profile": "c18", "root": "root", "tree": tree, "ops": ops}
+    sc = {"seed": seed, "profile": "c18", "root": "root", "tree": tree, "ops": ops}
+    if rnd.random() < 0.3:
+        gen.unsteady_clock(sc, rnd)
+    return sc
 
 
 def monitor(sc, res):
@@ -125,7 +128,7 @@ def _tree_matches(sc, res, st):
 
 def run(ctx):
     scs = [build(ctx.seed * 1000403 + i) for i in range(ctx.scale(120, 2000))]
-    return _scn.run_scn(ctx, scs, monitor, assumptions=["histories without nested child histories and without renames (the property's domain)"])
+    return _scn.run_scn(ctx, scs, monitor, extra_fails=largefiles.extra(ctx), assumptions=["histories without nested child histories and without renames (the property's domain)"])
 
 
 def replay(ctx, path):
